@@ -27,6 +27,17 @@ def load_known(prop):
     return [e for e in data.get('findings', []) if e['property'] == prop and e.get('status') == 'open']
 
 
+def covered_sets(transitions, engine):
+    """Transitions named 'cov:<set>:<item>' are items of a finite set the engine wants covered."""
+    out = {}
+    for t in transitions:
+        if t.startswith('cov:'):
+            _, name, _item = t.split(':', 2)
+            out[name] = out.get(name, 0) + 1
+    sizes = getattr(engine, 'COVER_SETS', {})
+    return {n: {'covered': out.get(n, 0), 'of': sizes[n][0], 'meaning': sizes[n][1]} for n in sizes}
+
+
 def match_known(known, signature):
     """Exact or '|'-prefix match; 'x|dev=a+b' is known only if 'x|dev=a' and 'x|dev=b' both are."""
     if '|dev=' in signature:
@@ -299,7 +310,8 @@ def main(argv=None):
                 'samples': [engine.describe(s['scenario']) if hasattr(engine, 'describe') else s['scenario'] for s in agg['samples'][:3]] or ['(no non-trivial run)'],
                 'runs_per_hour': int(agg['runs'] / max(wall, 1e-6) * 3600),
                 'operations_stepped': agg['ops'],
-                'distinct_abstract_transitions': len(agg['transitions']),
+                'distinct_abstract_transitions': len([t for t in agg['transitions'] if not t.startswith('cov:')]),
+                'covered_sets': covered_sets(agg['transitions'], engine),
                 'transition_measure': getattr(engine, 'TRANSITION_MEASURE', ''),
                 'faults_fired': agg['faults'],
                 'run_classes': agg['klass'],
@@ -324,7 +336,7 @@ def main(argv=None):
             json.dump(ev, f, indent=1, sort_keys=True)
     stuck = [p for p in getattr(engine, 'PROBES', []) if not agg['probes'].get(p)]
     print('runs=%d nontrivial=%d transitions=%d ops=%d faults=%s refused=%d wall=%.1fs slowest_run=%.1fs(#%d)' % (
-        agg['runs'], len(agg['nontrivial_keys']), len(agg['transitions']), agg['ops'], agg['faults'], agg['refused'], wall, agg['slowest'][0], agg['slowest'][1]))
+        agg['runs'], len(agg['nontrivial_keys']), len([t for t in agg['transitions'] if not t.startswith('cov:')]), agg['ops'], agg['faults'], agg['refused'], wall, agg['slowest'][0], agg['slowest'][1]))
     if stuck:
         print('self-assessment: probes stuck at zero: ' + ', '.join(stuck))
     for l in lines:
